@@ -164,6 +164,17 @@ pub fn yield_point_unguarded(site: &'static str) {
     }
 }
 
+/// Scheduling point right after a hash-index entry (bucket lock) was released by a writing
+/// call, before whatever the call still does outside it. Taken only in runs whose controller
+/// switches the cooperative point `index.after_entry_release` on, so that schedules recorded
+/// before this seam existed replay unchanged.
+#[inline]
+pub fn seam_after_entry_release() {
+    if fail_at("index.after_entry_release") {
+        yield_point("index.after_entry_release");
+    }
+}
+
 #[inline]
 pub fn fail_at(site: &'static str) -> bool {
     controller().is_some_and(|c| c.fail_at(site))
